@@ -33,7 +33,10 @@ ASSUMPTIONS = [
     "around it (handle_client: readline, decode, unhexlify, handle_request, write, the except arm, the two breaks, the "
     "division after the loop) is modelled with its exceptions (Model/VEcuConn.lean) and what ends it is proved exactly "
     "(conn_end_exact)",
-    "connection level: writer.write / drain do not raise while the peer is connected (a reset by the peer is the fourth "
+    "connection level: a request line is shorter than the StreamReader limit of the connection (asyncio's default 2**16, "
+    "i.e. requests up to 32767 bytes; the model has no limit; the tie builds the server's reader with the limit run() "
+    "passes to asyncio.start_server and sends requests up to 4095 bytes, the longest one ISO-TP transfer carries); "
+    "writer.write / drain do not raise while the peer is connected (a reset by the peer is the fourth "
     "way the loop can end and is outside the property); what the runtime does with the socket after handle_client "
     "returned or raised is not modelled (the client then just sees no further line); the client is "
     "LinesTransportMixin.write / read + helpers.parse_pdu, which is UDSClient.request_unsafe with max_retry 0 for an ECU "
